@@ -434,7 +434,11 @@ def o3(ctx):
         for e in p.trace:
             if e.kind == 'UCALL' and e.d['callee'].k == 'free' and e.d['callee'].a[0] == 'lock_factory':
                 a = e.d['args']
-                ok = len(a) >= 2 and a[0].k == 'free' and a[0].a[0] == 'cache'
+                kw = e.d['kwargs']
+                # (cache, key) positionally, expire and tag by keyword: the factories differ in their third positional
+                # parameter (BoundedSemaphore takes `value` there)
+                ok = len(a) == 2 and a[0].k == 'free' and a[0].a[0] == 'cache' and \
+                    set(kw) == {'expire', 'tag'} and all(kw[k].k == 'free' and kw[k].a[0] == k for k in kw)
     obs.append(Ob('O3', 'barrier.decorator/one-lock-per-function', ok, 'the lock is not created once per decorated '
                   'function from lock_factory(cache, key, ...)', d.loc()))
     return obs
